@@ -4799,9 +4799,14 @@ class PyCdlib:
 
         self._seek_to_extent(self.pvd.extent_location())
 
-        # First write out the PVD.
+        # First write out the PVD, and every copy of it (which has to agree
+        # with it, including the Volume Modification Date in bytes 830-846).
         rec = self.pvd.record()
         self._cdfp.write(rec)
+        for pvd in self.pvds[1:]:
+            self._seek_to_extent(pvd.extent_location())
+            duprec = pvd.record()
+            self._cdfp.write(duprec[:830] + rec[830:847] + duprec[847:])
 
         # Write out the joliet VD.
         if self.joliet_vd is not None:
